@@ -55,7 +55,8 @@ ASSUMPTIONS = [
     "the first-order solution matrices T,K,P,X,J,Ru returned by the implementation are taken as given (their correctness is property C01)",
     "floating point: implementation and exact model are compared within 1e-7*scale on instances whose measured cond(M) <= 1e4",
     "stacked_time: Newton convergence is a runtime matter; solver_settings step_tolerance=inf so that only the residual norm decides",
-    "plans are generated in one mode (all anticipated or all unanticipated), as the property statement quantifies; integer statuses of plan cells are not modelled",
+    "plans are generated in one mode (as the property statement quantifies) or, for a quarter of the cases, mixed with the instrument of every pair at the date of its target; mixed plans under stacked_time are judged on 'exogenized points hit' and 'only endogenized shocks move' only (frames revise anticipated shocks); integer statuses of plan cells are not modelled",
+    "log-variables enter models that are linear in the logarithms (first order exact); exp/log themselves are not modelled in Lean (abstract inverse pair)",
 ]
 
 TOL = 1e-7
@@ -97,18 +98,38 @@ def gen_model_spec(rng: Rng):
         const = rng.choice([0.0, 0.5, 1.0, -0.25]) if rng.chance(0.6) else 0.0
         eqs.append({"lhs": v, "terms": terms, "const": const})
     stds = [rng.choice([1.0, 0.5, 2.0, 1.0]) for _ in names]
-    return {"names": names, "eqs": eqs, "stds": stds}
+    # log-variables: the equation of v is written for log(v) and v enters the others as log(v): the model is linear in the logarithms, so
+    # the first-order solution is exact, but every simulator has to logarithmise / delogarithmise the data of v
+    logs = [v for v in names if rng.chance(0.5)] if rng.chance(0.35) else []
+    deterministic = rng.chance(0.15)
+    if deterministic:
+        stds = [1.0 for _ in names]
+    return {"names": names, "eqs": eqs, "stds": stds, "logs": logs, "deterministic": deterministic}
+
+
+def is_log(spec, v) -> bool:
+    return v in (spec.get("logs") or [])
+
+
+def lv(spec, v, x):
+    """value on the scale in which the model is linear"""
+    return math.log(x) if is_log(spec, v) and x > 0 else (float("nan") if is_log(spec, v) else x)
 
 
 def model_source(spec) -> str:
-    def term(c, v, s):
+    logs = spec.get("logs") or []
+    def ref(v, s):
         sh = "" if s == 0 else "{%+d}" % s
-        return f"{c!r}*{v}{sh}"
-    lines = ["!transition_variables", "    " + ", ".join(spec["names"]), "!transition_shocks",
-             "    " + ", ".join("e" + v for v in spec["names"]), "!transition_equations"]
+        return f"log({v}{sh})" if v in logs else f"{v}{sh}"
+    def term(c, v, s):
+        return f"{c!r}*{ref(v, s)}"
+    lines = ["!transition_variables", "    " + ", ".join(spec["names"])]
+    if logs:
+        lines += ["!log-variables", "    " + ", ".join(logs)]
+    lines += ["!transition_shocks", "    " + ", ".join("e" + v for v in spec["names"]), "!transition_equations"]
     for e in spec["eqs"]:
         rhs = " + ".join(term(*t) for t in e["terms"]) + f" + e{e['lhs']}" + (f" + {e['const']!r}" if e["const"] else "")
-        lines.append(f"    {e['lhs']} = {rhs};")
+        lines.append(f"    {ref(e['lhs'], 0)} = {rhs};")
     return "\n".join(lines) + "\n"
 
 
@@ -119,9 +140,16 @@ def build_model(spec):
     key = json.dumps(spec, sort_keys=True)
     if key in _MODEL_CACHE:
         return _MODEL_CACHE[key]
-    m = ir.Simultaneous.from_string(model_source(spec), linear=True)
-    m.assign(**{f"std_e{v}": s for v, s in zip(spec["names"], spec["stds"])})
-    m.steady()
+    logs = spec.get("logs") or []
+    kw = {"deterministic": True} if spec.get("deterministic") else {}
+    m = ir.Simultaneous.from_string(model_source(spec), linear=not logs, **kw)
+    if not spec.get("deterministic"):
+        m.assign(**{f"std_e{v}": s for v, s in zip(spec["names"], spec["stds"])})
+    if logs:
+        m.assign(**{v: (1.0 if v in logs else 0.0) for v in spec["names"]})
+    buf = io.StringIO()
+    with contextlib.redirect_stdout(buf):
+        m.steady()
     m.solve()
     sol = m._gets_solution()
     ok = str(sol.system_stability).upper().endswith("STABLE") and "NO_" not in str(sol.system_stability).upper() \
@@ -177,7 +205,7 @@ def plan_condition(m, spec, N, targets, instruments) -> float:
         d = db.copy()
         set_cell(d, sh, t, 1.0)
         s = simulate(m, d, N, "first_order")
-        cols.append([get_cell(s, v, tt) - get_cell(base, v, tt) for v, tt in targets])
+        cols.append([lv(spec, v, get_cell(s, v, tt)) - lv(spec, v, get_cell(base, v, tt)) for v, tt in targets])
     return cond_of(np.array(cols, dtype=float).T)
 
 
@@ -212,9 +240,11 @@ def gen_case(rng: Rng, force=None):
     names = spec["names"]
     n = len(names)
     N = rng.randint(3, 7)
-    mode = force.get("mode") or rng.choice(["unant", "ant"])
+    mode = force.get("mode") or rng.weighted([("unant", 3), ("ant", 3), ("mixed", 2)])
     method = force.get("method") or rng.weighted([("first_order", 3), ("stacked_time", 2)])
     k = rng.randint(1, min(4, n * 2))
+    if mode == "mixed":
+        return gen_mixed_case(rng, spec, m, N, method, max(k, 2))
     pre = "ant_" if mode == "ant" else ""
     cells = [(v, t) for v in names for t in range(N)]
     has_lead = any(sh > 0 for e in spec["eqs"] for _, _, sh in e["terms"])
@@ -285,6 +315,69 @@ def gen_case(rng: Rng, force=None):
             "scramble_seed": rng.randint(0, 10**6)}
 
 
+def gen_mixed_case(rng: Rng, spec, m, N, method, k):
+    """ONE plan holding anticipated and unanticipated swaps side by side.  Every pair has its instrument at the date of its target, so that
+    the sub-plan from any date onwards is exactly identified as well (the simulators split a mixed run into frames at the unanticipated
+    dates and solve each frame from its start to the end); no known unanticipated shock after the first period."""
+    names = spec["names"]
+    cells = [(v, t) for v in names for t in range(N)]
+    best = None
+    for _try in range(8):
+        targets = rng.sample(cells, k)
+        modes = [rng.choice(["ant", "unant"]) for _ in targets]
+        if len(set(modes)) < 2:
+            modes[0], modes[1] = "unant", "ant"
+        instruments = []
+        for (v, t), md in zip(targets, modes):
+            pre = "ant_" if md == "ant" else ""
+            # from the start of a frame an anticipated and an unanticipated shock of the same name and date are the same instrument
+            other = "" if md == "ant" else "ant_"
+            pool = [(pre + "e" + s, t) for s in names if (pre + "e" + s, t) not in instruments and (other + "e" + s, t) not in instruments]
+            if (method == "stacked_time" or rng.chance(0.5)) and (pre + "e" + v, t) in pool:
+                # stacked time solves other sub-plans per frame (anticipated pairs from the frame start on, unanticipated pairs of the
+                # first column only): the own shock of the target keeps every sub-plan identified
+                instruments.append((pre + "e" + v, t))
+            elif pool and method != "stacked_time":
+                instruments.append(rng.choice(pool))
+        if len(instruments) != k:
+            continue
+        # identification from every date onwards
+        cond = 0.0
+        for b in sorted({t for _, t in targets}):
+            idx = [i for i, (_, t) in enumerate(targets) if t >= b]
+            # as seen from the start of the frame that begins at b (the model is time invariant: shift the dates)
+            cond = max(cond, plan_condition(m, spec, N - b, [(targets[i][0], targets[i][1] - b) for i in idx],
+                                            [(instruments[i][0], instruments[i][1] - b) for i in idx]))
+        if best is None or cond < best[0]:
+            best = (cond, targets, instruments, modes)
+        if cond <= 1e2:
+            break
+    if best is None or best[0] > 1e3:
+        return None
+    _, targets, instruments, modes = best
+    background = []
+    for _ in range(rng.randint(0, 2)):
+        cell = (rng.choice(["", "ant_"]) + "e" + rng.choice(names), 0)
+        if cell[0].startswith("ant_"):
+            cell = (cell[0], rng.randint(0, N - 1))
+        if cell not in instruments and cell not in [c for c, _ in background]:
+            background.append((cell, dy(rng, -2, 2)))
+    stages = None
+    if rng.chance(0.3):
+        # staged: the unanticipated pairs are always active (an inactive one would stay in the input as a known unanticipated shock at a
+        # later date and split the run into frames that revise the anticipated instruments); anticipated pairs are added in the second stage
+        every = list(range(k))
+        ants = [i for i in every if modes[i] == "ant"]
+        drop = set(rng.sample(ants, rng.randint(1, len(ants))))
+        stages = [[i for i in every if i not in drop], every]
+    return {"stages": stages, "stage_methods": None, "modes": modes,
+            "spec": spec, "N": N, "mode": "mixed", "method": method, "targets": [list(c) for c in targets],
+            "instruments": [list(c) for c in instruments], "truth": [dy(rng, -2, 2) for _ in instruments],
+            "prior": [0.0 for _ in instruments], "background": [[list(c), v] for c, v in background],
+            "init": {v: [dy(rng, -1, 1, 2), dy(rng, -1, 1, 2)] for v in names} if rng.chance(0.7) else {},
+            "scramble": rng.chance(0.5), "scramble_seed": rng.randint(0, 10**6)}
+
+
 def stages_of(case):
     """the sequence of (active pair indices, method) simulated with ONE plan object; an unstaged case is one stage with every pair"""
     k = len(case["targets"])
@@ -311,7 +404,7 @@ def run_impl(case):
             except Exception:
                 continue
             if math.isfinite(base):
-                s[START - lag] = base + d
+                s[START - lag] = base * math.exp(d / 2) if is_log(spec, v) else base + d
                 db[v] = s
     for (cell, val) in case["background"]:
         set_cell(db, cell[0], cell[1], val)
@@ -319,7 +412,10 @@ def run_impl(case):
         set_cell(db, sh, t, val)
     sim1 = simulate(m, db, N, method)
     plan = ir.SimulationPlan(m, span)
-    suffix = "anticipated" if mode == "ant" else "unanticipated"
+    def suffix(i):
+        # a mixed plan holds anticipated and unanticipated swaps side by side: the mode is a property of the pair
+        md = case["modes"][i] if case.get("modes") else mode
+        return "anticipated" if md == "ant" else "unanticipated"
     active: set = set()
     results = []
     staged = len(stages_of(case)) > 1
@@ -327,16 +423,18 @@ def run_impl(case):
         want = set(want)
         for i in sorted(want - active):
             (v, t), (sh, ts) = case["targets"][i], case["instruments"][i]
-            getattr(plan, "exogenize_" + suffix)((START + t,), v)
-            getattr(plan, "endogenize_" + suffix)((START + ts,), sh)
+            getattr(plan, "exogenize_" + suffix(i))((START + t,), v)
+            getattr(plan, "endogenize_" + suffix(i))((START + ts,), sh)
         for i in sorted(active - want):
             (v, t), (sh, ts) = case["targets"][i], case["instruments"][i]
-            getattr(plan, "exogenize_" + suffix)((START + t,), v, status=False)
-            getattr(plan, "endogenize_" + suffix)((START + ts,), sh, status=False)
+            getattr(plan, "exogenize_" + suffix(i))((START + t,), v, status=False)
+            getattr(plan, "endogenize_" + suffix(i))((START + ts,), sh, status=False)
         active = want
         idx = sorted(active)
         sub = dict(case, targets=[case["targets"][i] for i in idx], instruments=[case["instruments"][i] for i in idx],
                    truth=[case["truth"][i] for i in idx], prior=[case["prior"][i] for i in idx], method=stage_method)
+        if case.get("modes"):
+            sub["modes"] = [case["modes"][i] for i in idx]
         if staged:
             sub["stage"] = si
             sub["full"] = case
@@ -352,7 +450,8 @@ def run_impl(case):
             for v in names:
                 for t in range(N):
                     if (v, t) not in tset:
-                        set_cell(db2, v, t, get_cell(db2, v, t) + r.dyadic(-2, 2))
+                        d = r.dyadic(-2, 2)
+                        set_cell(db2, v, t, get_cell(db2, v, t) * math.exp(d / 2) if is_log(spec, v) else get_cell(db2, v, t) + d)
         out = {"m": m, "db1": db, "sim1": sim1, "db2": db2, "plan": plan}
         try:
             out["sim2"] = simulate(m, db2, N, stage_method, plan=plan)
@@ -376,7 +475,7 @@ def impact_numeric(case, r):
         d = r["db2"].copy()
         set_cell(d, sh, t, get_cell(d, sh, t) + 1.0)
         s = simulate(m, d, N, "first_order")
-        cols.append([get_cell(s, v, tt) - get_cell(base, v, tt) for v, tt in case["targets"]])
+        cols.append([lv(case["spec"], v, get_cell(s, v, tt)) - lv(case["spec"], v, get_cell(base, v, tt)) for v, tt in case["targets"]])
     return np.array(cols, dtype=float).T
 
 
@@ -388,6 +487,14 @@ def scale_of(case, r):
         if a.size and np.all(np.isfinite(a)):
             mx = max(mx, float(np.max(np.abs(a))))
     return mx
+
+
+def weak_case(case) -> bool:
+    """a mixed plan under stacked time is solved frame by frame (one frame per unanticipated date), each frame imposing only its own
+    unanticipated points: the anticipated shocks estimated in an early frame are revised in the later ones, so the final databox is by
+    construction not one perfect-foresight simulation and the round trip is not exact.  What the property can demand there: the
+    exogenized points are hit and only endogenized shock cells move."""
+    return case["mode"] == "mixed" and case["method"] == "stacked_time"
 
 
 def oracle_case(ctx: Ctx, case, r, cond) -> bool:
@@ -412,6 +519,8 @@ def oracle_case(ctx: Ctx, case, r, cond) -> bool:
             if (s, t) not in inst and not abs(a[t] - b[t]) <= 1e-12 * scale:
                 ctx.fail(f"non-endogenized-shock-moved-{case['method']}-{case['mode']}", case, f"{s}[{t}]: output {a[t]!r} input {b[t]!r}")
                 return False
+    if weak_case(case):
+        return good
     # (3) the output is a simulation: the plain simulator, fed with the output's shocks and initial condition, returns the output
     try:
         again = simulate(r["m"], sim2, N, "first_order")
@@ -429,8 +538,8 @@ def oracle_case(ctx: Ctx, case, r, cond) -> bool:
     no_surprise = all(np.all(values(sim2, s, N)[1:] == 0) for s in us)
     has_lead = any(sh > 0 for e in spec["eqs"] for _, _, sh in e["terms"])
     if no_surprise or not has_lead:
-        X = {v: values(sim2, v, N) for v in names}
-        pre = {v: [float(x) for x in np.asarray(sim2[v].get_data(START - 2 >> START - 1), dtype=float).ravel()] for v in names}
+        X = {v: [lv(spec, v, float(x)) for x in values(sim2, v, N)] for v in names}
+        pre = {v: [lv(spec, v, float(x)) for x in np.asarray(sim2[v].get_data(START - 2 >> START - 1), dtype=float).ravel()] for v in names}
         def val(v, t):
             return X[v][t] if t >= 0 else pre[v][2 + t]
         for e in spec["eqs"]:
@@ -482,7 +591,7 @@ def lean_request(case, r, order="col") -> str:
     init = []
     for tok in vec.transition_variables:
         try:
-            init.append(float(db2[qid_to_name[tok.qid]].get_data(START - 1 + tok.shift).ravel()[0]))
+            init.append(lv(spec, qid_to_name[tok.qid], float(db2[qid_to_name[tok.qid]].get_data(START - 1 + tok.shift).ravel()[0])))
         except Exception:
             init.append(float("nan"))
     true_init = [bool(b) for b in vec.true_initials]
@@ -490,7 +599,7 @@ def lean_request(case, r, order="col") -> str:
     v0 = np.array([values(db2, s, N) for s in vs])
     std = np.array([[sd] * N for sd in spec["stds"]])
     exo = [[(v, t) in {tuple(c) for c in case["targets"]} for t in range(N)] for v in curr_names]
-    tgt = np.array([[get_cell(db2, v, t) if exo[i][t] else 0.0 for t in range(N)] for i, v in enumerate(curr_names)])
+    tgt = np.array([[lv(spec, v, get_cell(db2, v, t)) if exo[i][t] else 0.0 for t in range(N)] for i, v in enumerate(curr_names)])
     inst = {tuple(c) for c in case["instruments"]}
     endo_u = [[(s, t) in inst for t in range(N)] for s in us]
     endo_v = [[(s, t) in inst for t in range(N)] for s in vs]
@@ -558,7 +667,7 @@ def compare_case(ctx: Ctx, case, r, reply, cond):
     tol = TOL * scale_of(case, r)
     mod = p["stacked"]
     for q, i in zip(qids, idx):
-        a = values(r["sim2"], qid_to_name[q], N)
+        a = np.array([lv(spec, qid_to_name[q], float(x)) for x in values(r["sim2"], qid_to_name[q], N)])
         b = mod["xi"][int(i), :]
         if not np.all(np.abs(a - b) <= tol):
             t = int(np.argmax(np.abs(a - b)))
@@ -609,7 +718,9 @@ def run_cases(ctx: Ctx, cases, with_model=True):
             ctx.count("cond_M<=1e2" if cond <= 1e2 else "cond_M<=1e4" if cond <= COND_MAX else "cond_M>1e4(no tolerance comparison)")
             if cond > COND_MAX:
                 continue
-            if "error" in r:
+            if "error" in r and weak_case(case):
+                ctx.count(f"impl_rejects(mixed plan under stacked time, not judged):{r['error'].split(':')[0]}")
+            elif "error" in r:
                 ctx.count(f"impl_rejects:{r['error'].split(':')[0]}")
                 ctx.fail(f"identified-plan-rejected-{case['method']}-{case['mode']}", case,
                          f"exactly identified plan with cond(M)={cond:.3g} raises {r['error']}")
@@ -621,7 +732,7 @@ def run_cases(ctx: Ctx, cases, with_model=True):
             ctx.sample({"stream": "cond", "mode": case["mode"], "method": case["method"], "targets": case["targets"],
                         "instruments": case["instruments"], "model": model_source(case["spec"]), "cond_M": cond,
                         "stage": case.get("stage", 0), "stages": full.get("stages")})
-            if with_model:
+            if with_model and not weak_case(case):
                 try:
                     reqs.append(lean_request(case, r))
                     kept.append((case, r, cond))
@@ -666,8 +777,8 @@ def gen_plan_line(rng: Rng) -> str:
         k = rng.choice(["ea", "na", "eu", "nu"])
         st = "T" if rng.chance(0.8) else "F"
         per = sorted(set(rng.randint(0, NP - 1) for _ in range(rng.randint(1, 3))))
-        if rng.chance(0.06):
-            per.append(rng.choice([-1, NP, NP + 2]))
+        if rng.chance(0.08):
+            per.append(rng.choice([-1, -1, -2, -NP, NP, NP + 2]))
         nm = sorted(set(rng.randint(0, 2) for _ in range(rng.randint(1, 2))))
         if rng.chance(0.06):
             nm.append(3)
@@ -743,6 +854,53 @@ def oracle_plan_reads(ctx: Ctx, line: str, replies: list[str]):
                  f"after the same writes: plan read after every write reports {replies[-1][:300]} / plan read once reports {once[:300]}")
 
 
+def oracle_plan_writes(ctx: Ctx, line: str):
+    """from the statement, independent of the model: a plan call naming a period outside the plan span (or an unknown name) must raise
+    and leave all four registers as they were; an accepted call sets exactly the requested (name, period) cells of its own register
+    and nothing else -- no other cell of any register may be swapped"""
+    m = plan_model()
+    secs = [s.strip() for s in line.split("|")]
+    NP = int(secs[0].split()[1])
+    plan = ir.SimulationPlan(m, START >> START + (NP - 1))
+    read = lambda: {k: plan.get_register_as_bool_array(reg).tolist() for k, reg in KINDS.items()}
+    before = read()
+    done = []
+    for op in [o.strip() for o in secs[1].split(";") if o.strip()]:
+        _, k, stt, per, nm = op.split()
+        reg = KINDS[k]
+        rownames = list(getattr(plan, "can_be_" + reg))
+        idx = [int(i) for i in nm.split(",")]
+        offs = [int(t) for t in per.split(",")]
+        nms = [rownames[i] if i < len(rownames) else "nope" for i in idx]
+        must_reject = any(i >= len(rownames) for i in idx) or any(t < 0 or t >= NP for t in offs)
+        raised = False
+        try:
+            getattr(plan, ("exogenize_" if k[0] == "e" else "endogenize_") + reg.split("_")[1])(tuple(START + t for t in offs), nms, status=(stt == "T"))
+        except Exception:
+            raised = True
+        done.append(op)
+        after = read()
+        case = {"line": " | ".join([secs[0], ";".join(done)] + secs[2:])}
+        if must_reject:
+            if not raised:
+                ctx.fail("plan-out-of-span-or-unknown-name-accepted", case, f"`{op}` on a plan of {NP} periods did not raise")
+                return
+            if after != before:
+                ctx.fail("plan-rejected-call-changed-registers", case, f"`{op}` raised but the registers changed")
+                return
+        else:
+            want = {kk: [row[:] for row in tbl] for kk, tbl in before.items()}
+            for i in idx:
+                for t in offs:
+                    want[k][i][t] = (stt == "T")
+            if raised or after != want:
+                diff = [(kk, i, t) for kk in want for i, row in enumerate(want[kk]) for t, b in enumerate(row) if after[kk][i][t] != b]
+                ctx.fail("plan-write-touches-other-cells" if not raised else "plan-valid-call-rejected", case,
+                         f"`{op}`: cells differing from 'requested cells = status, everything else unchanged': {diff[:6]}")
+                return
+        before = after
+
+
 def impl_plan_once(line: str) -> str:
     """all ops on a fresh plan, then a single read"""
     from irispie.stacked_time import simulators as st
@@ -815,6 +973,7 @@ def run_plan_stream(ctx: Ctx, n):
         impl += rep
         try:
             oracle_plan_reads(ctx, l, rep)
+            oracle_plan_writes(ctx, l)
         except Exception as e:
             ctx.count("plan_read_oracle_raises")
     ctx.compare("plan", lines, impl, ctx.model("C07", lines))
@@ -884,6 +1043,7 @@ def search(ctx: Ctx, seeds):
         try:
             rep = impl_plan_prefixes(l)
             oracle_plan_reads(ctx, l, rep)
+            oracle_plan_writes(ctx, l)
             oracle_plan_line(ctx, l, rep[-1])
         except Exception:
             pass
@@ -898,5 +1058,6 @@ def replay(ctx: Ctx, payload):
         pre, rep = prefix_lines(line), impl_plan_prefixes(line)
         ctx.compare("plan", pre, rep, ctx.model("C07", pre))
         oracle_plan_reads(ctx, line, rep)
+        oracle_plan_writes(ctx, line)
         oracle_plan_line(ctx, line, rep[-1])
         ctx.evaluations += len(pre)
